@@ -32,8 +32,13 @@ func checkC19(p *Program, r *Report) {
 		"subtracts (for a removal) that same coin's Value() and ValueAge() to both running totals exactly once, and no other function stores to the totals " +
 		"(apart from zero initialisation of a fresh set) — so the totals cannot drift under any sequence of pushes, pops and shifts. C19.order: a transaction " +
 		"built from a set spends coins[i] at input i. C19.maxinputs: the prefix scan pushes a coin only while n < MaxInputs. C19.desc: the min-number and " +
-		"max-value-age selectors sort a fresh copy descending by Value() resp. ValueAge() and delegate to the prefix selector with unchanged limits. Not " +
-		"decided: every selector post-condition (value-level search code, in particular the min-priority heuristic)."
+		"max-value-age selectors sort a fresh copy descending by Value() resp. ValueAge() and delegate to the prefix selector with unchanged limits. " +
+		"C19.target / C19.maxinputs / C19.avg: a forward data-flow over every CoinSelect method tracks, per coin set, whether the target predicate and the " +
+		"average test hold for the current contents (established only by the passing edge of satisfiesTargetValue(targetValue, s.MinChangeAmount, set.TotalValue()), " +
+		"the failing edge of TotalValueAge()/Num() < MinAvg, undoing the one pending push, a nested selection made with the same parameters, or the complement " +
+		"composition of the low-priority top-up with a rounded-up share) and a linear upper bound on the coin count; every success return must hold them. " +
+		"C19.prefix: the prefix scan pushes coins[n] for n = 0, 1, … without skipping and tests the target after every push. C19.cache: any further field a " +
+		"CoinSet keeps about its contents is written whenever the list changes. Not decided: distinctness of the coins, arithmetic overflow of the totals."
 	r.Trusted = []string{"container/list.List semantics", "sort.Sort / sort.Reverse"}
 	cp := p.Pkg("coinset")
 	if cp == nil {
@@ -436,8 +441,10 @@ func checkC19(p *Program, r *Report) {
 		r.Add("C19.desc", FnName(fn), "delegates to the prefix selector with the same limits and target", fn.Pos(), okDelegate, "MinIndexCoinSelector(s).CoinSelect(targetValue, sorted)")
 	}
 	r.Floor("C19.order", 1)
-	r.Floor("C19.maxinputs", 1)
 	r.Floor("C19.desc", 4)
+	c19selectors(p, r)
+	c19prefix(p, r)
+	c19cache(p, r, cst, listF)
 }
 
 // postDominates: every path from b to a function exit passes through a.
